@@ -92,7 +92,7 @@ func NewIRITerm(iri string) (Term, error) {
 	if err != nil {
 		return Term{}, err
 	}
-	return Term{Value: escape("<", iri, ">")}, nil
+	return Term{Value: escapeIRI("<", iri, ">")}, nil
 }
 
 func isIRI(s string) bool {
@@ -120,7 +120,7 @@ func NewLiteralTerm(text, qual string) (Term, error) {
 	if err != nil {
 		return Term{}, err
 	}
-	return Term{Value: text + escape("^^<", qual, ">")}, nil
+	return Term{Value: text + escapeIRI("^^<", qual, ">")}, nil
 }
 
 func checkIRIText(iri string) error {
@@ -346,6 +346,27 @@ func escape(lq, s, rq string) string {
 	if rq != "" {
 		buf.WriteString(rq)
 	}
+	return buf.String()
+}
+
+// escapeIRI returns s between lq and rq with the characters that an
+// IRIREF cannot hold written as UCHAR escapes; an IRIREF has no ECHAR.
+func escapeIRI(lq, s, rq string) string {
+	var buf strings.Builder
+	buf.WriteString(lq)
+	for _, r := range s {
+		switch {
+		case r <= ' ', r == '<', r == '>', r == '"', r == '{', r == '}', r == '|', r == '^', r == '`', r == '\\':
+			fmt.Fprintf(&buf, "\\u%04x", r)
+		case r <= unicode.MaxASCII || strconv.IsPrint(r):
+			buf.WriteRune(r)
+		case r < 0x10000:
+			fmt.Fprintf(&buf, "\\u%04x", r)
+		default:
+			fmt.Fprintf(&buf, "\\U%08x", r)
+		}
+	}
+	buf.WriteString(rq)
 	return buf.String()
 }
 
